@@ -50,6 +50,11 @@ def gen_query(rng, V, facts, extra=None):
             return "%s %s^-%d" % (mag(rng)[0], e["word"], pw)
         fs = V.rand_factors(rng, nmax=3)
         return "%s %s" % (mag(rng)[0], G.text(fs, rng))
+    if r < 0.004:
+        # huge whole numbers (2e4 to 4e4 digits), round ones (k * 10^m) and ones with a non-zero tail: whether the continuation mark is
+        # printed depends on the digits that are cut off, not on how many there are (seed C19-h: a fast path for huge integers)
+        k = rng.choice(["1", "25", "7", "1234567890123", "12345678901234567"])
+        return "%se%d%s" % (k, rng.choice([19000, 19729, 19800, 20000, 25000, 40000]), rng.choice(["", "", " decade", " m", " + 7"]))
     if r < 0.03:
         # results whose exact rendering is a LONG line (500 to 3000 digits: long literals, powers, reciprocals of them) with no unit, a
         # unit with a numerator, or a denominator-only unit: fixed-size line buffers and their fallback paths (seed C19-g)
